@@ -57,6 +57,8 @@ type Check struct {
 	start       time.Time
 	seen        map[string]bool
 	Mutants     any
+	capCount    map[string]int
+	Suppressed  int
 }
 
 func NewCheck(prop, tier string, p *Program) *Check {
@@ -67,6 +69,18 @@ func NewCheck(prop, tier string, p *Program) *Check {
 func (c *Check) Rule(id, text string) { c.Rules[id] = text }
 
 func (c *Check) add(o Obligation) {
+	if o.Status == Violated || o.Status == Undecided {
+		// cap repeated reports of the same rule on the same construct
+		if c.capCount == nil {
+			c.capCount = map[string]int{}
+		}
+		ck := o.Rule + "|" + o.Construct
+		c.capCount[ck]++
+		if c.capCount[ck] > 3 {
+			c.Suppressed++
+			return
+		}
+	}
 	key := o.Rule + "|" + o.Construct
 	if c.seen[key] {
 		// keep key unique: append ordinal
@@ -259,6 +273,7 @@ func (c *Check) Finish(verifDir string, meta propMeta) int {
 			"tables":              c.Tables,
 			"all_obligations":     c.Obls,
 			"notes":               c.Notes,
+			"suppressed_repeats":  c.Suppressed,
 			"mutant_selftest":     c.Mutants,
 		},
 		"assumptions": meta.Assumptions,
